@@ -13,6 +13,7 @@ import (
 	"fmt"
 	"math"
 	"math/rand"
+	"reflect"
 	"sort"
 	"strings"
 	"sync"
@@ -78,6 +79,7 @@ type fnCfg struct {
 	MaxRel    int           // 1..3: MaxSize = (callers of this Func in round 0) -1 / +0 / +1, resolved after the rounds are generated
 	EffWait   time.Duration // effective timer values (defaults applied, clamped to 5 ms) used only to place bursts and cancellations
 	EffMaxDur time.Duration
+	ResSalt   int // 0: every result element is the string want(arg); otherwise the element's dynamic type is chosen per argument from resKindNames (see resKindOf)
 }
 
 const veryLong = time.Duration(math.MaxInt64)
@@ -325,8 +327,8 @@ func (sc scenario) describe() map[string]interface{} {
 		for _, v := range f.ShardVals {
 			sv = append(sv, fmt.Sprintf("%T(%v)", v, v))
 		}
-		fns = append(fns, fmt.Sprintf("fn%d{MaxSize:%d WaitInterval:%v MaxDuration:%v shards:%d shardFn:%v shardValues:[%s] manyOutcomes:[%s] slow:%v}",
-			i, f.MaxSize, f.Wait, f.MaxDur, f.Shards, f.ShardFn, strings.Join(sv, " "), strings.Join(os, ","), f.SlowFor))
+		fns = append(fns, fmt.Sprintf("fn%d{MaxSize:%d WaitInterval:%v MaxDuration:%v shards:%d shardFn:%v shardValues:[%s] manyOutcomes:[%s] slow:%v resultElements:%s}",
+			i, f.MaxSize, f.Wait, f.MaxDur, f.Shards, f.ShardFn, strings.Join(sv, " "), strings.Join(os, ","), f.SlowFor, map[bool]string{false: "strings", true: fmt.Sprintf("mixed-dynamic-types(salt %d)", f.ResSalt)}[f.ResSalt != 0]))
 	}
 	var rs []string
 	for i, rc := range sc.Rounds {
@@ -344,6 +346,233 @@ func (sc scenario) describe() map[string]interface{} {
 		rs = append(rs, fmt.Sprintf("round%d{cancel:%s@%v perCallerContexts:%v cancelCreatorWhenManyEntered:%v manyIssuesNestedInvokes:%v callers:%s}", i, cancelNames[rc.Cancel], rc.CancelAt, rc.PerCaller, rc.CancelCreator, rc.Nest, strings.Join(cs, " ")))
 	}
 	return map[string]interface{}{"funcs": fns, "limiter": sc.Limit, "limiter_first": sc.LimiterFirst, "rounds": rs, "yield_intensity": sc.Intensity}
+}
+
+// ------------------------------------------------------------ result values
+
+// The element Func.Many computes for an argument is ordinary data of ANY
+// dynamic type: the property promises the caller exactly that element. Besides
+// strings the harness's Many therefore returns ints, structs, pointers, nil,
+// zero values, typed nil pointers, values whose type happens to implement
+// error or fmt.Stringer (stored records, not failures), error values made by
+// the standard library (also ones wrapping a context error), non-comparable
+// values (slices, maps, funcs), channels, nested []interface{} slices and the
+// argument itself. All but the nil / zero / typed-nil ones identify their
+// argument, so a mis-pairing stays visible.
+const (
+	resString = iota
+	resInt
+	resStruct
+	resPointer
+	resNil
+	resZero
+	resTypedNilPtr
+	resErrorStruct      // struct value whose type implements error
+	resErrorPointer     // pointer whose type implements error
+	resTypedNilErrorPtr // nil pointer of a type that implements error (a non-nil interface value)
+	resStdlibError      // errors.New / fmt.Errorf value kept as data
+	resStdlibErrorCtx   // fmt.Errorf value wrapping context.Canceled / DeadlineExceeded, kept as data
+	resStringer
+	resSlice
+	resNestedResults // a []interface{} of 0..3 elements: an element that looks like a result list
+	resMap
+	resFunc
+	resChan
+	resArg
+	nResKinds
+)
+
+var resKindNames = [...]string{"string", "int", "struct", "pointer", "nil", "zero-value", "typed-nil-pointer", "error-implementing-struct", "error-implementing-pointer", "typed-nil-error-implementing-pointer", "stdlib-error-value", "stdlib-error-value-wrapping-ctx-error", "stringer", "slice", "nested-[]interface{}", "map", "func", "chan", "the-argument-itself"}
+
+type resRecord struct {
+	Arg  arg
+	Note string
+}
+
+// resFailureRecord is a plain data record; it implements error because an
+// application might also return it from elsewhere.
+type resFailureRecord struct{ Arg arg }
+
+func (f resFailureRecord) Error() string { return "stored failure record of " + want(f.Arg) }
+
+type resFailurePtr struct{ Arg arg }
+
+func (f *resFailurePtr) Error() string {
+	if f == nil {
+		return "stored failure record (nil)"
+	}
+	return "stored failure record of " + want(f.Arg)
+}
+
+type resLabel struct{ Arg arg }
+
+func (l resLabel) String() string { return "label of " + want(l.Arg) }
+
+func argHash(a arg, salt int) uint64 {
+	x := uint64(salt)*0x9E3779B97F4A7C15 + uint64(a.Round)*1000003 + uint64(a.Caller)*10007 + uint64(a.Seq)*101 + uint64(a.Fn)*31 + uint64(a.Shard)*13 + uint64(a.Nest)*7
+	x ^= x >> 29
+	x *= 0xBF58476D1CE4E5B9
+	x ^= x >> 32
+	return x
+}
+
+// resKindOf is the dynamic type of the element computed for a: a pure function
+// of the Func's salt and the argument (three in ten stay strings).
+func resKindOf(salt int, a arg) int {
+	if salt == 0 {
+		return resString
+	}
+	h := argHash(a, salt)
+	if h%10 < 3 {
+		return resString
+	}
+	return int((h / 10) % nResKinds)
+}
+
+// makeResult builds the element for a. Pointers, maps, funcs, slices and
+// channels are fresh objects per call: the oracle also compares identity with
+// the element the Many call actually returned.
+func makeResult(salt int, a arg) interface{} {
+	h := argHash(a, salt+1)
+	switch resKindOf(salt, a) {
+	case resString:
+		return want(a)
+	case resInt:
+		return a.Round<<40 | a.Caller<<20 | a.Seq<<12 | a.Fn<<8 | a.Shard<<4 | a.Nest
+	case resStruct:
+		return resRecord{a, "value"}
+	case resPointer:
+		return &resRecord{a, "pointer"}
+	case resNil:
+		return nil
+	case resZero:
+		return []interface{}{"", 0, false, struct{}{}, resRecord{}, 0.0}[h%6]
+	case resTypedNilPtr:
+		return (*resRecord)(nil)
+	case resErrorStruct:
+		return resFailureRecord{a}
+	case resErrorPointer:
+		return &resFailurePtr{a}
+	case resTypedNilErrorPtr:
+		return (*resFailurePtr)(nil)
+	case resStdlibError:
+		if h%2 == 0 {
+			return errors.New("data: " + want(a))
+		}
+		return fmt.Errorf("data: %s", want(a))
+	case resStdlibErrorCtx:
+		if h%2 == 0 {
+			return fmt.Errorf("data: %s: %w", want(a), context.Canceled)
+		}
+		return fmt.Errorf("data: %s: %w", want(a), context.DeadlineExceeded)
+	case resStringer:
+		return resLabel{a}
+	case resSlice:
+		return []string{want(a), "slice"}
+	case resNestedResults:
+		out := make([]interface{}, h%4)
+		for i := range out {
+			out[i] = fmt.Sprintf("%s#%d", want(a), i)
+		}
+		return out
+	case resMap:
+		return map[string]arg{"arg": a}
+	case resFunc:
+		return func() arg { return a }
+	case resChan:
+		ch := make(chan arg, 1)
+		ch <- a
+		return ch
+	case resArg:
+		return a
+	}
+	panic("unreachable result kind")
+}
+
+// describeRes renders dynamic type and content of an element (no identity).
+func describeRes(v interface{}) string {
+	switch x := v.(type) {
+	case nil:
+		return "<nil interface>"
+	case *resRecord:
+		if x == nil {
+			return "(*resRecord)(nil)"
+		}
+		return fmt.Sprintf("*resRecord{%s,%s}", want(x.Arg), x.Note)
+	case *resFailurePtr:
+		if x == nil {
+			return "(*resFailurePtr)(nil)"
+		}
+		return fmt.Sprintf("*resFailurePtr{%s}", want(x.Arg))
+	case resRecord:
+		return fmt.Sprintf("resRecord{%s,%s}", want(x.Arg), x.Note)
+	case resFailureRecord:
+		return fmt.Sprintf("resFailureRecord{%s}", want(x.Arg))
+	case resLabel:
+		return fmt.Sprintf("resLabel{%s}", want(x.Arg))
+	case arg:
+		return "arg:" + want(x)
+	case []interface{}:
+		parts := make([]string, len(x))
+		for i, e := range x {
+			parts[i] = describeRes(e)
+		}
+		return fmt.Sprintf("[]interface{}(len %d)[%s]", len(x), strings.Join(parts, ","))
+	case map[string]arg:
+		keys := make([]string, 0, len(x))
+		for k := range x {
+			keys = append(keys, k)
+		}
+		sort.Strings(keys)
+		parts := make([]string, len(keys))
+		for i, k := range keys {
+			parts[i] = k + "=" + want(x[k])
+		}
+		return "map[string]arg{" + strings.Join(parts, ",") + "}"
+	case func() arg:
+		if x == nil {
+			return "(func() arg)(nil)"
+		}
+		return "func() returning " + want(x())
+	case chan arg:
+		return fmt.Sprintf("chan arg(cap %d, len %d)", cap(x), len(x))
+	case error:
+		return fmt.Sprintf("%T{%s}", x, x.Error())
+	}
+	return fmt.Sprintf("%T(%v)", v, v)
+}
+
+// sameElement: got is the very value `elem` (Go equality where the dynamic
+// type is comparable, same underlying object for slices / maps / funcs).
+func sameElement(got, elem interface{}) bool {
+	if got == nil || elem == nil {
+		return got == nil && elem == nil
+	}
+	tg, te := reflect.TypeOf(got), reflect.TypeOf(elem)
+	if tg != te {
+		return false
+	}
+	if tg.Comparable() {
+		return got == elem
+	}
+	vg, ve := reflect.ValueOf(got), reflect.ValueOf(elem)
+	switch tg.Kind() {
+	case reflect.Slice:
+		return vg.Len() == ve.Len() && vg.Pointer() == ve.Pointer()
+	case reflect.Map, reflect.Func:
+		return vg.Pointer() == ve.Pointer()
+	}
+	return reflect.DeepEqual(got, elem)
+}
+
+// genResults draws, from its own random stream, which Funcs compute elements
+// of mixed dynamic types.
+func genResults(r *rand.Rand, sc *scenario) {
+	for fi := range sc.Fns {
+		if r.Intn(2) == 0 {
+			sc.Fns[fi].ResSalt = 1 + r.Intn(1<<20)
+		}
+	}
 }
 
 // ---------------------------------------------------------------------- log
@@ -380,6 +609,7 @@ type manyRec struct {
 	startSeq  int64
 	endSeq    int64 // tick before returning / panicking
 	err       error
+	results   []interface{} // copy of the slice Many returned (nil when it panicked)
 	mutated   bool
 	ctxErr    error
 	panicKind string
@@ -558,6 +788,7 @@ func (m *mon) makeFunc(idx int, cfg fnCfg) *fnState {
 			}
 			m.mu.Lock()
 			rec.err = err
+			rec.results = append([]interface{}(nil), res...)
 			rec.endSeq = m.tick()
 			m.mu.Unlock()
 		}
@@ -565,7 +796,7 @@ func (m *mon) makeFunc(idx int, cfg fnCfg) *fnState {
 			out := make([]interface{}, len(args))
 			for i, a := range args {
 				if x, ok := a.(arg); ok {
-					out[i] = want(x)
+					out[i] = makeResult(cfg.ResSalt, x)
 				}
 			}
 			return out
@@ -623,6 +854,7 @@ type roundLog struct {
 func runScenario(run *vlib.Run, i int, agg *vlib.HitAgg) {
 	r := run.Rand("scenario", i)
 	sc := genScenario(r)
+	genResults(run.Rand("results", i), &sc)
 	desc := sc.describe()
 	m := &mon{}
 	y := vlib.NewYielder(run.Seed()*1000003+int64(i), sc.Intensity)
@@ -1046,10 +1278,23 @@ func oracle(sc scenario, rounds []*roundLog, manys []*manyRec) (string, bool, ma
 				if ctxAlt {
 					break
 				}
+				kind := resKindOf(sc.Fns[a.Fn].ResSalt, a)
+				feats["result_element:"+resKindNames[kind]]++
+				pos := -1
+				for p, x := range mr.Args {
+					if y, ok := x.(arg); ok && y == a {
+						pos = p
+					}
+				}
+				expect := describeRes(makeResult(sc.Fns[a.Fn].ResSalt, a))
 				if rec.err != nil {
-					bad("Invoke returned an error although the Many call containing its argument succeeded", "arg", id, "call", mr.ID, "err", rec.err)
-				} else if rec.res != want(a) {
-					bad("Invoke returned a result that is not the one computed for its own argument", "arg", id, "call", mr.ID, "got", fmt.Sprint(rec.res), "want", want(a))
+					bad("Invoke returned an error although the Many call containing its argument succeeded", "arg", id, "call", mr.ID, "err", rec.err, "err_type", fmt.Sprintf("%T", rec.err), "result", describeRes(rec.res), "want_result", expect, "want_err", "<nil>")
+				} else if got := describeRes(rec.res); got != expect {
+					bad("Invoke returned a result that is not the one computed for its own argument", "arg", id, "call", mr.ID, "got", got, "want", expect)
+				} else if pos < 0 || pos >= len(mr.results) {
+					bad("the successful Many call containing the argument has no element at the argument's position", "arg", id, "call", mr.ID, "position", pos, "results", len(mr.results))
+				} else if !sameElement(rec.res, mr.results[pos]) {
+					bad("Invoke returned a value that is not the very element the Many call returned at the position of its argument (same content, other object)", "arg", id, "call", mr.ID, "got", got, "position", pos)
 				}
 			case outError, outErrorRes:
 				feats["invoke:many_error"]++
@@ -1095,6 +1340,10 @@ func oracle(sc scenario, rounds []*roundLog, manys []*manyRec) (string, bool, ma
 				feats["func:default_timer_option"]++
 			}
 		}
+		if f.ResSalt != 0 {
+			c += "r"
+			feats["func:result_elements_of_mixed_dynamic_types"]++
+		}
 		cfgs = append(cfgs, fmt.Sprintf("m%d/s%d%s", f.MaxSize, f.Shards, c))
 	}
 	var rs []string
@@ -1132,13 +1381,14 @@ func oracle(sc scenario, rounds []*roundLog, manys []*manyRec) (string, bool, ma
 func TestCheck(t *testing.T) {
 	run := vlib.Start(t, "C05", "exploration")
 	defer run.Finish()
-	run.Rule("seeded scenarios on the real batch.Func: 1..3 Funcs on one batching context (MaxSize in {0,1,2,3,7}, WaitInterval 0.2-2 ms, MaxDuration 1-5 ms, one Func in six with options at representational boundaries (MaxSize in {1, 2, callers-1, callers, callers+1, 1<<20, MaxInt32, MaxInt}; WaitInterval / MaxDuration in {0 = default, 1ns, the largest Duration}, never both very long), 1..4 shards, Shard func nil or set, shard values either ints or values of different dynamic types / distinct pointers with the same %v rendering (orgID(b), deviceID(b), int b, string b, int64(b), two &shardPoint{b}, uint8(b)), per-call Many outcome from {ok, error, error+results, panic (with a value that is a string, error, custom error type, int, struct, pointer, Stringer, slice, func, nil, or raised by the runtime: nil map write, index out of range, nil dereference), short, long, slow, slow-until-cancel}), " +
+	run.Rule("seeded scenarios on the real batch.Func: 1..3 Funcs on one batching context (MaxSize in {0,1,2,3,7}, WaitInterval 0.2-2 ms, MaxDuration 1-5 ms, one Func in six with options at representational boundaries (MaxSize in {1, 2, callers-1, callers, callers+1, 1<<20, MaxInt32, MaxInt}; WaitInterval / MaxDuration in {0 = default, 1ns, the largest Duration}, never both very long), 1..4 shards, Shard func nil or set, shard values either ints or values of different dynamic types / distinct pointers with the same %v rendering (orgID(b), deviceID(b), int b, string b, int64(b), two &shardPoint{b}, uint8(b)), per-call Many outcome from {ok, error, error+results, panic (with a value that is a string, error, custom error type, int, struct, pointer, Stringer, slice, func, nil, or raised by the runtime: nil map write, index out of range, nil dereference), short, long, slow, slow-until-cancel}; in half of the Funcs (own random stream) the element Many computes for an argument is not a string but a value whose dynamic type is chosen per argument from {string, int, struct, pointer, nil, zero value, typed nil pointer, struct / pointer / typed nil pointer of a type that implements error (a stored record, not a failure), errors.New / fmt.Errorf value kept as data (also wrapping a context error), Stringer, slice, nested []interface{} of 0..3 elements, map, func, chan, the argument itself}), " +
 		"1..3 back-to-back rounds of 1..64 callers (1..3 sequential Invokes each) started in bursts placed at 0, 0.5/0.9/1/1.1/2 x WaitInterval and 0.9/1/1.1 x MaxDuration, round context cancelled never / before / during / after, " +
 		"with or without concurrencylimiter.With(ctx,1..3) and an Acquire around every Invoke, in half of the shared-context rounds every second Many call itself invokes another Func and the same Func with another argument on the same batching context (sequentially or from goroutines it waits for; these nested Invokes are monitored like all others), random yields at the batch.* and limiter.* hooks. In half of the rounds all callers share the round's cancellable context; in the other half callers use own contexts derived from it (live, cancelled at a seeded time, or - in half of those rounds - cancelled by the harness at the moment a Many call whose first argument is theirs, i.e. whose group they created, is entered, with Many outcomes biased to slow-until-cancel). " +
 		"Non-trivial = the log shows a MaxSize roll-over (a full batch followed by another batch of the same Func/shard in the round), a late joiner (Invoke called after a Many call of its Func/shard had started, and dispatched in a later call) or a cancellation while Invokes were outstanding; " +
-		"distinct = limiter size, per-Func (MaxSize, shards), per-round (callers, cancel mode), number of undispatched arguments and the multiset of Many calls (Func, batch size, outcome).")
+		"distinct = limiter size, per-Func (MaxSize, shards, string or mixed-type result elements), per-round (callers, cancel mode), number of undispatched arguments and the multiset of Many calls (Func, batch size, outcome).")
 	run.Assume("shards are compared by Go equality (==) of the values the harness's Shard function returned for the arguments, never by a printed form")
-	run.Assume("arguments are unique (round, caller, seq) values; Many computes want(arg) per position, so any mis-pairing of argument and result is visible")
+	run.Assume("arguments are unique (round, caller, seq) values; Many computes an element per position that (except for nil / zero / typed-nil elements) names its argument, so any mis-pairing of argument and result is visible")
+	run.Assume("'the element of the batch result that corresponds to its own argument' is read literally for every dynamic type: when Many returned a nil error and the right number of results, Invoke must return (that very element, nil) - same dynamic type and content, Go-equal where comparable, the same underlying object for slices / maps / funcs - also when the element is nil or happens to implement error")
 	run.Assume("with per-caller contexts: a caller whose own context is live and whose argument was handed to a Many call gets that call's outcome (its error object if it failed, e.g. the creator's context error) and is never dispatched again; an argument that was never dispatched is accepted only with a context error and only if the caller's own context, the round context, or the own context of another caller of the same Func (a possible creator of its group) was being cancelled before the Invoke returned")
 	run.Assume("an Invoke may return the context's error instead of the batch outcome once cancel() of its context has been begun before it returned (lenient reading of 'or the batch's error')")
 	run.Assume("all log sequence numbers come from one atomic counter: Invoke call is logged before the call, Invoke return after it, Many entry/exit inside Many")
